@@ -355,7 +355,11 @@ func c04RefLex(src []rune, buf []c04Tok) (toks []c04Tok, st int, why string) {
 	if n > 0 && c04IsWS(src[0]) {
 		return toks, c04DC, "leading-white-space-is-indentation"
 	}
+	inBackticks := false // text between backticks is one identifier: no comment starts inside it
 	for i, ch := range src {
+		if ch == '`' {
+			inBackticks = !inBackticks
+		}
 		switch {
 		case ch == 0:
 			return toks, c04DC, "nul"
@@ -363,7 +367,7 @@ func c04RefLex(src []rune, buf []c04Tok) (toks []c04Tok, st int, why string) {
 			return toks, c04DC, "line-break"
 		case ch == 0x6CE8: // 注
 			return toks, c04DC, "zhu-comment-glyph"
-		case ch == '/' && i+1 < n && (src[i+1] == '/' || src[i+1] == '*' || src[i+1] == '='):
+		case ch == '/' && !inBackticks && i+1 < n && (src[i+1] == '/' || src[i+1] == '*' || src[i+1] == '='):
 			return toks, c04DC, "comment-start-or-/="
 		}
 	}
